@@ -132,6 +132,8 @@ class NP:
 
     # ---- reductions over python lists of scalars ----------------------------------------------
     def min(self, x, **kw):
+        if isinstance(x, vecs.SV) and "where" in kw:
+            x = x[kw.pop("where")]          # reduction over the selected elements only (needs `initial`, as NumPy requires)
         if isinstance(x, (vecs.SV, vecs.Concat)):
             return vecs.reduce_min(x, nanaware=False, **kw)
         if isinstance(x, (list, tuple)) and _anysym(x):
@@ -145,6 +147,8 @@ class NP:
         return _np.min(x, **kw)
 
     def max(self, x, **kw):
+        if isinstance(x, vecs.SV) and "where" in kw:
+            x = x[kw.pop("where")]
         if isinstance(x, (vecs.SV, vecs.Concat)):
             return vecs.reduce_max(x, nanaware=False, **kw)
         if isinstance(x, (list, tuple)) and _anysym(x):
@@ -310,6 +314,16 @@ class NP:
         lo, hi = z3.If(a.r <= b.r, a.r, b.r), z3.If(a.r <= b.r, b.r, a.r)
         fin = z3.And(z3.Not(a.nan), z3.Not(b.nan), NINF < a.r, a.r < PINF, NINF < b.r, b.r < PINF)
         c.assume(z3.ForAll([j], z3.Implies(z3.And(0 <= j, j < m, fin), z3.And(z3.Not(e.nan), lo <= e.r, e.r <= hi)), patterns=[e.r]))
+        base_at = v.at
+
+        def at(i):
+            # a sample read at a ground index also gets the instance of the bound fact
+            r = base_at(i)
+            cc = cur()
+            if not cc.qscopes and z3.is_expr(i):
+                cc.assume(z3.Implies(z3.And(0 <= i, i < m, fin), z3.And(z3.Not(r.nan), lo <= r.r, r.r <= hi)))
+            return r
+        v.at = vecs._memo_at(at)
         c.assume(z3.Implies(z3.And(m >= 1, fin), v.at(z3.IntVal(0)).r == a.r))
         c.assume(z3.Implies(z3.And(m >= 2, fin), v.at(m - 1).r == b.r))
         return v
